@@ -68,7 +68,7 @@ pub fn hex(b: &[u8]) -> String {
     s
 }
 
-fn mk_config(bits: u32) -> ParserConfig {
+pub fn mk_config(bits: u32) -> ParserConfig {
     let mut c = ParserConfig::default();
     c.allow_spaces_after_header_name_in_responses(bits & 1 != 0);
     c.allow_obsolete_multiline_headers_in_responses(bits & 2 != 0);
@@ -158,7 +158,7 @@ fn hdrs_str(hs: &[Header<'_>], buf: &[u8]) -> String {
     hs.iter().map(|h| slot_str(h, buf)).collect::<Vec<_>>().join(",")
 }
 
-fn counters_reset() {
+pub fn counters_reset() {
     use std::sync::atomic::Ordering::Relaxed;
     httparse::_verif::ADVANCED.store(0, Relaxed);
     httparse::_verif::PEEK_N.store(0, Relaxed);
@@ -166,7 +166,7 @@ fn counters_reset() {
     httparse::_verif::AVX2_LOADS.store(0, Relaxed);
 }
 
-fn counters_str() -> String {
+pub fn counters_str() -> String {
     use std::sync::atomic::Ordering::Relaxed;
     format!(
         "adv={} pk={} l16={} l32={}",
@@ -630,6 +630,10 @@ fn main() {
         Some("gen") => gen::cmd_gen(&args[2..]),
         Some("info") => {
             println!("{}", info());
+            Ok(())
+        }
+        Some("cost") => {
+            gen::cmd_cost(&args[2..]);
             Ok(())
         }
         Some("race") => {
